@@ -564,6 +564,15 @@ func init() {
 					if ext != a.Union(orb.Bound{Min: p, Max: p}) {
 						f("Extend(p) is not the union with the point's box", map[string]interface{}{"p": sv(p), "extend": sv(ext)})
 					}
+					// extending the box of a value without vertices: the result holds the point, is not empty, and extending again
+					// changes nothing (whether it must be exactly the point's box is not demanded: see DESIGN section 12, round 12)
+					for _, e := range []orb.Bound{empty, orb.LineString{}.Bound(), orb.Polygon{}.Bound()} {
+						x := e.Extend(p)
+						c.Eval()
+						if !(x.Min[0] <= p[0] && p[0] <= x.Max[0] && x.Min[1] <= p[1] && p[1] <= x.Max[1]) || x.IsEmpty() || !x.Contains(p) || x.Extend(p) != x {
+							f("extending an empty box by a point does not give a non-empty box that contains the point (or extending twice differs)", map[string]interface{}{"empty_box": sv(e), "p": sv(p), "extend": sv(x), "extend_twice": sv(x.Extend(p))})
+						}
+					}
 					inside := a.Min[0] <= p[0] && p[0] <= a.Max[0] && a.Min[1] <= p[1] && p[1] <= a.Max[1]
 					if a.Contains(p) != inside || a.Contains(p) != (ext == a) {
 						f("Contains(p) is not 'p inside the closed box' / 'Extend(p) leaves the box unchanged'", map[string]interface{}{"p": sv(p), "contains": a.Contains(p)})
